@@ -1,4 +1,5 @@
-(* C13 — executable model M of package.go (and the Lambda sharing of pkg/cl/defun.go): Use, Unuse, Set/SetIfHas, Export, Unexport, Remove,
+(* C13 — executable model M of package.go AS REPAIRED by repo_fixes/C13-1 .. C13-12 (and the Lambda sharing
+   of pkg/cl/defun.go): Use, Unuse, Set/SetIfHas, Export, Unexport, Remove,
    DefLambda, Undefine, Get, FindFunc, and of the thin Lisp wrappers in pkg/cl that call them
    (use-package, unuse-package, export, unexport, setq/defvar at top level, defun, makunbound,
    fmakunbound, in-package).  Go maps are total functions here; the loops `for name, vv := range
@@ -54,6 +55,19 @@ Definition set_vheap s h := {| vars := vars s; funcs := funcs s; vheap := h; fhe
 Definition set_fheap s h := {| vars := vars s; funcs := funcs s; vheap := vheap s; fheap := h; vnext := vnext s;
   fnext := fnext s; uses := uses s; users := users s; cur := cur s; lheap := lheap s; lnext := lnext s; plam := plam s |}.
 
+(* first used package whose table holds an exported entry under the name (the loops of Use / Unuse over
+   the used packages in Uses order, an entry already present is never replaced) *)
+Fixpoint inherited {A} (tbl : pkgid -> name -> option A) (exp : A -> bool) (us : list pkgid) (n : name) : option A :=
+  match us with
+  | [] => None
+  | q :: us' => match tbl q n with
+                | Some a => if exp a then Some a else inherited tbl exp us' n
+                | None => inherited tbl exp us' n
+                end
+  end.
+
+Definition opt_pkg_eqb (o : option pkgid) (p : pkgid) : bool := match o with Some q => N.eqb q p | None => false end.
+
 Section WithUniverse.
   Variable U : list name.      (* all names *)
 
@@ -61,42 +75,69 @@ Section WithUniverse.
     match vheap s a with Some vv => vv_export vv | None => false end.
   Definition fi_exported (s : state) (a : addr) : bool :=
     match fheap s a with Some fi => fi_export fi | None => false end.
+  (* vv.Pkg == obj / fi.Pkg == obj: the entry belongs to the package itself (not inherited) *)
+  Definition vv_home (s : state) (obj : pkgid) (a : addr) : bool :=
+    match vheap s a with Some vv => opt_pkg_eqb (vv_pkg vv) obj | None => false end.
+  Definition fi_home (s : state) (obj : pkgid) (a : addr) : bool :=
+    match fheap s a with Some fi => N.eqb (fi_pkg fi) obj | None => false end.
 
-  (* Package.Use *)
+  (* Package.Use (repaired, C13-7): an exported entry of the used package is inherited only if the package
+     has no entry under that name *)
   Definition use (s : state) (obj pkg : pkgid) : state :=
     if N.eqb obj pkg then s
     else if mem pkg (uses s obj) then s
     else
       let v' := fun p n => if N.eqb p obj then
-                  match vars s pkg n with
-                  | Some a => if vv_exported s a then Some a else vars s obj n
-                  | None => vars s obj n end
+                  match vars s obj n with
+                  | Some x => Some x
+                  | None => match vars s pkg n with
+                            | Some a => if vv_exported s a then Some a else None
+                            | None => None end
+                  end
                 else vars s p n in
       let f' := fun p n => if N.eqb p obj then
-                  match funcs s pkg n with
-                  | Some a => if fi_exported s a then Some a else funcs s obj n
-                  | None => funcs s obj n end
+                  match funcs s obj n with
+                  | Some x => Some x
+                  | None => match funcs s pkg n with
+                            | Some a => if fi_exported s a then Some a else None
+                            | None => None end
+                  end
                 else funcs s p n in
       {| vars := v'; funcs := f'; vheap := vheap s; fheap := fheap s; vnext := vnext s; fnext := fnext s;
          uses := upd (uses s) obj (uses s obj ++ [pkg]); users := upd (users s) pkg (users s pkg ++ [obj]);
          cur := cur s; lheap := lheap s; lnext := lnext s; plam := plam s |}.
 
-  (* Package.Unuse: the tables are rebuilt from the remaining used packages only, copying every
-     entry (exported or not), the later package overwriting the earlier *)
-  Definition rebuild {A} (tbl : pkgid -> name -> option A) (ps : list pkgid) (n : name) : option A :=
-    fold_left (fun acc p => match tbl p n with Some a => Some a | None => acc end) ps None.
+  (* Package.Unuse (repaired, C13-3): the entries whose home is the package itself are kept, the rest is
+     inherited again from the remaining used packages: exported entries only, the first used package wins.
+     (Also when pkg was not used: the tables are rebuilt all the same.) *)
   Definition unuse (s : state) (obj pkg : pkgid) : state :=
     if N.eqb obj pkg then s
     else
       let us := remove1 pkg (uses s obj) in
-      let v' := fun p n => if N.eqb p obj then rebuild (vars s) us n else vars s p n in
-      let f' := fun p n => if N.eqb p obj then rebuild (funcs s) us n else funcs s p n in
+      let v' := fun p n => if N.eqb p obj then
+                  match vars s obj n with
+                  | Some a => if vv_home s obj a then Some a else inherited (vars s) (vv_exported s) us n
+                  | None => inherited (vars s) (vv_exported s) us n end
+                else vars s p n in
+      let f' := fun p n => if N.eqb p obj then
+                  match funcs s obj n with
+                  | Some a => if fi_home s obj a then Some a else inherited (funcs s) (fi_exported s) us n
+                  | None => inherited (funcs s) (fi_exported s) us n end
+                else funcs s p n in
       {| vars := v'; funcs := f'; vheap := vheap s; fheap := fheap s; vnext := vnext s; fnext := fnext s;
          uses := upd (uses s) obj us; users := upd (users s) pkg (remove1 obj (users s pkg)); cur := cur s; lheap := lheap s; lnext := lnext s; plam := plam s |}.
 
-  (* Package.Set (with SetIfHas); private = false as from setq/defvar *)
+  (* share an entry with the using packages that have none under the name *)
   Definition push_users {A} (tbl : pkgid -> name -> option A) (us : list pkgid) (n : name) (a : A) :=
     fun p n' => if mem p us && N.eqb n' n then match tbl p n with Some x => Some x | None => Some a end else tbl p n'.
+  (* delete from the using packages the entries for which the test holds *)
+  Definition drop_users (tbl : pkgid -> name -> option addr) (us : list pkgid) (n : name) (test : addr -> bool) :=
+    fun p n' => if mem p us && N.eqb n' n then
+                  match tbl p n with Some x => if test x then None else Some x | None => None end
+                else tbl p n'.
+
+  (* Package.Set (with SetIfHas; repaired, C13-4: shared with the users only if exported and the package's own);
+     private = false as from setq/defvar *)
   Definition set_var (s : state) (obj : pkgid) (n : name) (v : Z) : state :=
     match vars s obj n with
     | Some a =>
@@ -104,7 +145,9 @@ Section WithUniverse.
         | Some vv =>
             if vv_export vv || N.eqb (cur s) obj then
               let s1 := set_vheap s (upd (vheap s) a (Some {| vv_pkg := vv_pkg vv; vv_val := Some v; vv_export := vv_export vv |})) in
-              set_vars s1 (push_users (vars s1) (users s obj) n a)
+              if vv_export vv && opt_pkg_eqb (vv_pkg vv) obj
+              then set_vars s1 (push_users (vars s1) (users s obj) n a)
+              else s1
             else s      (* SetIfHas returns the vv without setting; Set does not create another *)
         | None => s
         end
@@ -132,117 +175,131 @@ Section WithUniverse.
     | _ => set_var s (cur s) n v
     end.
 
-  (* Package.Export *)
-  Definition export (s : state) (obj : pkgid) (n : name) : state :=
-    let s1 := match funcs s obj n with
-              | Some a => match fheap s a with
-                          | Some fi =>
-                              let s' := set_fheap s (upd (fheap s) a (Some {| fi_pkg := fi_pkg fi; fi_lam := fi_lam fi; fi_export := true |})) in
-                              set_funcs s' (push_users (funcs s') (users s obj) n a)
-                          | None => s end
-              | None => s end in
+  (* Package.Export: function part, then variable part (repaired, C13-2: a name without a variable is
+     interned with its home package and shared with the users like an existing one) *)
+  Definition export_f (s : state) (obj : pkgid) (n : name) : state :=
+    match funcs s obj n with
+    | Some a => match fheap s a with
+                | Some fi =>
+                    let s' := set_fheap s (upd (fheap s) a (Some {| fi_pkg := fi_pkg fi; fi_lam := fi_lam fi; fi_export := true |})) in
+                    set_funcs s' (push_users (funcs s') (users s obj) n a)
+                | None => s end
+    | None => s end.
+  Definition export_v (s1 : state) (us : list pkgid) (obj : pkgid) (n : name) : state :=
     match vars s1 obj n with
     | Some a => match vheap s1 a with
                 | Some vv =>
                     let s' := set_vheap s1 (upd (vheap s1) a (Some {| vv_pkg := vv_pkg vv; vv_val := vv_val vv; vv_export := true |})) in
-                    set_vars s' (push_users (vars s') (users s obj) n a)
+                    set_vars s' (push_users (vars s') us n a)
                 | None => s1 end
     | None =>
         let a := vnext s1 in
-        {| vars := upd2 (vars s1) obj n (Some a); funcs := funcs s1;
-           vheap := upd (vheap s1) a (Some {| vv_pkg := None; vv_val := None; vv_export := true |});
-           fheap := fheap s1; vnext := a + 1; fnext := fnext s1; uses := uses s1; users := users s1; cur := cur s1; lheap := lheap s1; lnext := lnext s1; plam := plam s1 |}
+        let s' := {| vars := upd2 (vars s1) obj n (Some a); funcs := funcs s1;
+           vheap := upd (vheap s1) a (Some {| vv_pkg := Some obj; vv_val := None; vv_export := true |});
+           fheap := fheap s1; vnext := a + 1; fnext := fnext s1; uses := uses s1; users := users s1; cur := cur s1; lheap := lheap s1; lnext := lnext s1; plam := plam s1 |} in
+        set_vars s' (push_users (vars s') us n a)
     end.
+  Definition export (s : state) (obj : pkgid) (n : name) : state := export_v (export_f s obj n) (users s obj) obj n.
 
-  (* Package.Unexport *)
-  Definition unexport (s : state) (obj : pkgid) (n : name) : state :=
-    let s1 := match funcs s obj n with
-              | Some a => match fheap s a with
-                          | Some fi =>
-                              let s' := set_fheap s (upd (fheap s) a (Some {| fi_pkg := fi_pkg fi; fi_lam := fi_lam fi; fi_export := false |})) in
-                              set_funcs s' (fun p n' =>
-                                if mem p (users s obj) && N.eqb n' n then
-                                  match funcs s' p n with
-                                  | Some x => match fheap s' x with
-                                              | Some xf => if N.eqb (fi_pkg xf) obj then None else Some x
-                                              | None => Some x end
-                                  | None => None end
-                                else funcs s' p n')
-                          | None => s end
-              | None => s end in
+  (* Package.Unexport (repaired, C13-8: only a cell whose home is the package) *)
+  Definition unexport_f (s : state) (obj : pkgid) (n : name) : state :=
+    match funcs s obj n with
+    | Some a => match fheap s a with
+                | Some fi =>
+                    if N.eqb (fi_pkg fi) obj then
+                      let s' := set_fheap s (upd (fheap s) a (Some {| fi_pkg := fi_pkg fi; fi_lam := fi_lam fi; fi_export := false |})) in
+                      set_funcs s' (drop_users (funcs s') (users s obj) n (fi_home s' obj))
+                    else s
+                | None => s end
+    | None => s end.
+  Definition unexport_v (s1 : state) (us : list pkgid) (obj : pkgid) (n : name) : state :=
     match vars s1 obj n with
     | Some a => match vheap s1 a with
                 | Some vv =>
-                    let s' := set_vheap s1 (upd (vheap s1) a (Some {| vv_pkg := vv_pkg vv; vv_val := vv_val vv; vv_export := false |})) in
-                    set_vars s' (fun p n' =>
-                      if mem p (users s obj) && N.eqb n' n then
-                        match vars s' p n with
-                        | Some x => match vheap s' x with
-                                    | Some xv => match vv_pkg xv with
-                                                 | Some q => if N.eqb q obj then None else Some x
-                                                 | None => Some x end
-                                    | None => Some x end
-                        | None => None end
-                      else vars s' p n')
+                    if opt_pkg_eqb (vv_pkg vv) obj then
+                      let s' := set_vheap s1 (upd (vheap s1) a (Some {| vv_pkg := vv_pkg vv; vv_val := vv_val vv; vv_export := false |})) in
+                      set_vars s' (drop_users (vars s') us n (vv_home s' obj))
+                    else s1
                 | None => s1 end
     | None => s1
     end.
+  Definition unexport (s : state) (obj : pkgid) (n : name) : state := unexport_v (unexport_f s obj n) (users s obj) obj n.
 
-  (* Package.Remove (makunbound on the current package) *)
+  (* makunbound (repaired, C13-9): Package.Remove on the current package unless the variable is inherited
+     (vv.Pkg another package); Remove deletes the entry and, in the users, the entries whose home is obj *)
   Definition remove_var (s : state) (obj : pkgid) (n : name) : state :=
     match vars s obj n with
-    | Some _ =>
-        set_vars s (fun p n' =>
-          if N.eqb n' n then
-            if N.eqb p obj then None
-            else if mem p (users s obj) then
-              match vars s p n with
-              | Some x => match vheap s x with
-                          | Some xv => match vv_pkg xv with
-                                       | Some q => if N.eqb q obj then None else Some x
-                                       | None => Some x end
-                          | None => Some x end
-              | None => None end
-            else vars s p n'
-          else vars s p n')
+    | Some a =>
+        let inherited_var := match vheap s a with
+                             | Some vv => match vv_pkg vv with Some q => negb (N.eqb q obj) | None => false end
+                             | None => false end in
+        if inherited_var then s
+        else set_vars s (fun p n' =>
+               if N.eqb p obj && N.eqb n' n then None
+               else drop_users (vars s) (users s obj) n (vv_home s obj) p n')
     | None => s
     end.
 
   (* Package.DefLambda (defun name () v in the current package).  pkg/cl/defun.go builds a NEW Lambda lc
-     with the body and a Create closure fc over lc; DefLambda patches obj.lambdas[name] in place when
-     there is one (Doc, Forms, Closure, Macro := those of lc), otherwise registers lc; then the existing
-     or the new FuncInfo gets Create := fc, i.e. it refers to the NEW Lambda.  Nothing ever removes an
-     entry of obj.lambdas (Undefine deletes obj.funcs[name] only). *)
+     with the body and a Create closure fc over lc.  Repaired (C13-11): when the name is an inherited function
+     the Lambda registry is the one of its home package and the FuncInfo keeps its Pkg.  DefLambda patches
+     home.lambdas[name] in place when there is one (Doc, Forms, Closure, Macro := those of lc), otherwise
+     registers lc; then the existing or the new FuncInfo gets Create := fc, i.e. it refers to the NEW Lambda.
+     Nothing ever removes an entry of lambdas.  A new function whose name is an exported unbound symbol OF THE
+     PACKAGE ITSELF (C13-12) is exported, takes the place of the symbol here and in the users (C13-6). *)
   Definition defun (s : state) (obj : pkgid) (n : name) (v : Z) : state :=
+    let home := match funcs s obj n with
+                | Some a => match fheap s a with Some fi => fi_pkg fi | None => obj end
+                | None => obj end in
     let l := lnext s in
     let lh1 := upd (lheap s) l (Some v) in
-    let lh := match plam s obj n with Some x => upd lh1 x (Some v) | None => lh1 end in
-    let pl := match plam s obj n with Some _ => plam s | None => upd2 (plam s) obj n (Some l) end in
+    let lh := match plam s home n with Some x => upd lh1 x (Some v) | None => lh1 end in
+    let pl := match plam s home n with Some _ => plam s | None => upd2 (plam s) home n (Some l) end in
     match funcs s obj n with
     | Some a =>
         match fheap s a with
         | Some fi =>
             {| vars := vars s; funcs := funcs s; vheap := vheap s;
-               fheap := upd (fheap s) a (Some {| fi_pkg := obj; fi_lam := l; fi_export := fi_export fi |});
+               fheap := upd (fheap s) a (Some {| fi_pkg := home; fi_lam := l; fi_export := fi_export fi |});
                vnext := vnext s; fnext := fnext s; uses := uses s; users := users s; cur := cur s;
                lheap := lh; lnext := l + 1; plam := pl |}
         | None => s end
     | None =>
         let a := fnext s in
-        let exp := match vars s obj n with
+        let sym := match vars s obj n with
                    | Some x => match vheap s x with
-                               | Some vv => match vv_val vv with None => vv_export vv | Some _ => false end
-                               | None => false end
-                   | None => false end in
-        {| vars := if exp then upd2 (vars s) obj n None else vars s;
-           funcs := upd2 (funcs s) obj n (Some a); vheap := vheap s;
-           fheap := upd (fheap s) a (Some {| fi_pkg := obj; fi_lam := l; fi_export := exp |});
-           vnext := vnext s; fnext := a + 1; uses := uses s; users := users s; cur := cur s;
-           lheap := lh; lnext := l + 1; plam := pl |}
+                               | Some vv => match vv_val vv with
+                                            | None => if vv_export vv && opt_pkg_eqb (vv_pkg vv) obj then Some x else None
+                                            | Some _ => None end
+                               | None => None end
+                   | None => None end in
+        match sym with
+        | Some x =>
+            {| vars := fun p n' => if N.eqb p obj && N.eqb n' n then None
+                                   else drop_users (vars s) (users s obj) n (N.eqb x) p n';
+               funcs := push_users (upd2 (funcs s) obj n (Some a)) (users s obj) n a; vheap := vheap s;
+               fheap := upd (fheap s) a (Some {| fi_pkg := obj; fi_lam := l; fi_export := true |});
+               vnext := vnext s; fnext := a + 1; uses := uses s; users := users s; cur := cur s;
+               lheap := lh; lnext := l + 1; plam := pl |}
+        | None =>
+            {| vars := vars s; funcs := upd2 (funcs s) obj n (Some a); vheap := vheap s;
+               fheap := upd (fheap s) a (Some {| fi_pkg := obj; fi_lam := l; fi_export := false |});
+               vnext := vnext s; fnext := a + 1; uses := uses s; users := users s; cur := cur s;
+               lheap := lh; lnext := l + 1; plam := pl |}
+        end
     end.
 
-  (* Package.Undefine (fmakunbound) *)
-  Definition undefine (s : state) (obj : pkgid) (n : name) : state := set_funcs s (upd2 (funcs s) obj n None).
+  (* Package.Undefine (fmakunbound; repaired, C13-10: only a function whose home is the package; C13-5: the
+     same FuncInfo is deleted from the users) *)
+  Definition undefine (s : state) (obj : pkgid) (n : name) : state :=
+    match funcs s obj n with
+    | Some a =>
+        if fi_home s obj a then
+          set_funcs s (fun p n' => if N.eqb p obj && N.eqb n' n then None
+                                   else drop_users (funcs s) (users s obj) n (N.eqb a) p n')
+        else s
+    | None => s
+    end.
 
   (* ---- queries, asked with CurrentPackage = c ---- *)
   (* plain variable reference: Scope.get -> CurrentPackage.Get *)
@@ -253,12 +310,13 @@ Section WithUniverse.
                 | None => QUnbound end
     | None => QUnbound
     end.
-  (* pkg:name / pkg::name : GetVarVal + (Export || private); the Unbound marker is returned as a value *)
+  (* pkg:name / pkg::name : GetVarVal + (Export || private); repaired (C13-1): the Unbound marker is not
+     returned as a value, unbound-variable is signalled *)
   Definition q_var_q (s : state) (p : pkgid) (n : name) (private : bool) : qres :=
     match vars s p n with
     | Some a => match vheap s a with
                 | Some vv => if vv_export vv || private then
-                               match vv_val vv with Some v => QVal v | None => QMarker end
+                               match vv_val vv with Some v => QVal v | None => QUnbound end
                              else QUnbound
                 | None => QUnbound end
     | None => QUnbound
